@@ -1686,6 +1686,10 @@ func (c *Client) doSetup(
 		return nil, liberrors.ErrClientCannotSetupMediasDifferentURLs{}
 	}
 
+	if _, ok := c.setuppedMedias[medi]; ok {
+		return nil, fmt.Errorf("media has already been setupped")
+	}
+
 	th := headers.Transport{}
 
 	// when playing, omit mode, since it causes errors with some servers.
